@@ -389,9 +389,10 @@ Fixpoint c05_from (cfg : config) (st : c05st) (k : nat) (now : Z) (ops : list op
   end.
 Definition mon_C05 := with_cfg (fun cfg ops xs => c05_from cfg (mkC05 [] [] [] []) 0 0%Z ops xs).
 
-(* C10, clause 4: the absolute expiry of a grant, as introspection of its refresh token reports it,
-   never moves - across refreshes and rotations *)
-Fixpoint c10exp_from (lin : list (id * N)) (exps : list (N * Z)) (k : nat) (now : Z) (ops : list op) (xs : list obs) : N :=
+(* C10, clauses 4 and 6: the absolute expiry of a grant, as introspection of its refresh token reports
+   it, never moves - across refreshes and rotations; no refresh succeeds after the lifetime fixed when
+   the grant was created *)
+Fixpoint c10exp_from (cfg : config) (lin : list (id * N)) (exps born : list (N * Z)) (k : nat) (now : Z) (ops : list op) (xs : list obs) : N :=
   match ops, xs with
   | o :: ops', x :: xs' =>
       let key := N.of_nat (S k) in
@@ -399,60 +400,33 @@ Fixpoint c10exp_from (lin : list (id * N)) (exps : list (N * Z)) (k : nat) (now 
       match o, x with
       | OpToken GRefreshToken r, Out (OTokens t) =>
           match lookup (t_refresh r) lin with
-          | Some gk => c10exp_from (if is_nil (tr_rt t) then lin else (tr_rt t, gk) :: lin) exps (S k) now' ops' xs'
-          | None => c10exp_from (if is_nil (tr_rt t) then lin else (tr_rt t, key) :: lin) exps (S k) now' ops' xs'
+          | Some gk =>
+              if match lookupN gk born with Some b => Z.leb (b + cf_refresh_lifetime cfg + 3) now | None => false end
+              then viol 6 k
+              else c10exp_from cfg (if is_nil (tr_rt t) then lin else (tr_rt t, gk) :: lin) exps born (S k) now' ops' xs'
+          | None => c10exp_from cfg (if is_nil (tr_rt t) then lin else (tr_rt t, key) :: lin) exps born (S k) now' ops' xs'
           end
-      | OpToken _ r, Out (OTokens t) => c10exp_from (if is_nil (tr_rt t) then lin else (tr_rt t, key) :: lin) exps (S k) now' ops' xs'
-      | OpNotifyOk _ _, Notified true (nf :: _) => c10exp_from (if is_nil (nf_rt nf) then lin else (nf_rt nf, key) :: lin) exps (S k) now' ops' xs'
+      | OpToken _ r, Out (OTokens t) =>
+          c10exp_from cfg (if is_nil (tr_rt t) then lin else (tr_rt t, key) :: lin) exps
+            (if is_nil (tr_rt t) then born else (key, now) :: born) (S k) now' ops' xs'
+      | OpNotifyOk _ _, Notified true (nf :: _) =>
+          c10exp_from cfg (if is_nil (nf_rt nf) then lin else (nf_rt nf, key) :: lin) exps
+            (if is_nil (nf_rt nf) then born else (key, now) :: born) (S k) now' ops' xs'
       | OpIntrospect r, Out (OIntro i) =>
           if andb (in_active i) (in_refresh i) then
             match lookup (ptok_exact (q_tok r)) lin with
             | Some gk =>
                 match lookupN gk exps with
                 | Some e => if andb (Z.leb (e - 4) (now + in_exp i)) (Z.leb (now + in_exp i) (e + 4))
-                            then c10exp_from lin exps (S k) now' ops' xs' else viol 4 k
-                | None => c10exp_from lin ((gk, (now + in_exp i)%Z) :: exps) (S k) now' ops' xs'
+                            then c10exp_from cfg lin exps born (S k) now' ops' xs' else viol 4 k
+                | None => c10exp_from cfg lin ((gk, (now + in_exp i)%Z) :: exps) born (S k) now' ops' xs'
                 end
-            | None => c10exp_from lin exps (S k) now' ops' xs'
+            | None => c10exp_from cfg lin exps born (S k) now' ops' xs'
             end
-          else c10exp_from lin exps (S k) now' ops' xs'
-      | _, _ => c10exp_from lin exps (S k) now' ops' xs'
+          else c10exp_from cfg lin exps born (S k) now' ops' xs'
+      | _, _ => c10exp_from cfg lin exps born (S k) now' ops' xs'
       end
   | _, _ => 0
   end.
 Definition mon_C10x (c : syscase) : N :=
-  match mon_C10 c with 0 => c10exp_from [] [] 0 0%Z (sc_ops c) (sc_obs c) | k => k end.
-
-(* ================================================================================== *)
-(* C02: every navigation targets a URI registered for the client, or one that this client pushed
-   (accepted by /par) where unregistered URIs are permitted for PAR / under FAPI *)
-Fixpoint c02_from (cs : syscase) (cfg : config) (cbs : list (id * id)) (pushed : list (id * string))
-                  (k : nat) (ops : list op) (xs : list obs) : N :=
-  match ops, xs with
-  | o :: ops', x :: xs' =>
-      let ok_target (cl : id) (u : string) : bool :=
-        match client_of cs cl with
-        | Some c => orb (redirect_allowed c u)
-                      (andb (orb (cf_par_unregistered cfg) (is_fapi (cf_profile cfg)))
-                            (existsb (fun pr => andb (ideq (fst pr) cl) (seqb (snd pr) u)) pushed))
-        | None => false
-        end in
-      let bad : bool :=
-        match o, x with
-        | OpAuthorize r, Out (ONav _ u _) => negb (ok_target (ar_client r) u)
-        | OpCallback r, Out (ONav _ u _) =>
-            match lookup (cb_id r) cbs with Some cl => negb (ok_target cl u) | None => true end
-        | _, _ => false
-        end in
-      if bad then viol 1 k else
-      c02_from cs cfg
-        (match o, x with OpAuthorize r, Out (OPage cb) => (cb, ar_client r) :: cbs | _, _ => cbs end)
-        (match o, x with OpPar r, Out (OPar _) => (cr_id (pr_cred r), p_redirect (pr_params r)) :: pushed | _, _ => pushed end)
-        (S k) ops' xs'
-  | _, _ => 0
-  end.
-Definition mon_C02 (c : syscase) : N :=
-  match build (sc_profile c) (sc_opts c) with
-  | Some cfg => c02_from c cfg [] [] 0 (sc_ops c) (sc_obs c)
-  | None => 0
-  end.
+  match mon_C10 c with 0 => with_cfg (fun cfg ops xs => c10exp_from cfg [] [] [] 0 0%Z ops xs) c | k => k end.
